@@ -18,7 +18,7 @@ theorem C10_filter {I D P X R E : Type} [DecidableEq I] (cfg : Cfg) (h : cfg.All
   obtain ⟨hs, hj1, hj2, ha, hc, hq⟩ := h
   cases src with
   | stream fs => exact streamLoop_filter cfg.stream hs _ _ _ m fs []
-  | json ls => exact jsonLoop_filter cfg.json hj1 hj2 m ls
+  | json ls => exact jsonLoop_filter cfg.json hj1 hj2 _ m ls []
   | avro xs => simp only [Readers.read, ha]; exact mapLoop_filter _ m xs
   | csv xs => simp only [Readers.read, hc]; exact mapLoop_filter _ m xs
   | sqlite ts => simp only [Readers.read, sqliteLoop, hq]; exact mapLoop_filter _ m _
@@ -56,8 +56,8 @@ theorem C10_rejecting_selector_keeps_errors {I D P X R E : Type} [DecidableEq I]
 /-- The guard flags carry the content: a reader with one unguarded yield (here: the JSON fallback branch, the way a
     per-adapter omission would look) does *not* have the property. -/
 theorem C10_unguarded_counterexample :
-    ∃ (cfg : JsonCfg) (m : Matcher Nat Unit) (ls : List (JsonLine Nat Unit)),
-      cfg.guardRecord = true ∧ jsonLoop cfg (some m) ls ≠ filterRun m (jsonLoop cfg none ls) :=
+    ∃ (cfg : JsonCfg) (m : Matcher Nat Unit) (ls : List (JsonLine Nat Nat Unit)),
+      cfg.guardRecord = true ∧ jsonLoop cfg () (some m) [] ls ≠ filterRun m (jsonLoop cfg () none [] ls) :=
   ⟨⟨true, false⟩, fun _ => .ok false, [.plain (.ok 7)], rfl, by decide⟩
 
 /-- SQLite: the result does not depend on how `fetchmany(batch_size)` cuts the rows into batches. -/
@@ -89,6 +89,27 @@ theorem C10_make_selector (s : String) (hs : s.isEmpty = false) (force : Bool) :
     | text t => simp [SelArg.obj] at ha
     | interp t => simp [makeSelector, SelArg.obj, mkInterp]
     | compiled t => simp [makeSelector, SelArg.obj]
+
+/-- Inst: the shape of `make_selector`, `Selector`, `CompiledSelector` that `makeSelector` / `runThreaded` /
+    `runCompiled` transcribe: falsy → None, text → engine by `force_compiled`, a `Selector` is recompiled from its
+    `expression_str` only when forced, anything else passes through; `Selector("")` means `"True"`,
+    `CompiledSelector("")` matches everything; neither class defines `__bool__`/`__len__`; `Selector.match` reuses one
+    matcher whose `matches` is called per record; every reader normalises its `selector=` argument with it and the
+    stream adapter delegates to `RecordStreamReader`. -/
+theorem C10_inst_selector_shape :
+    Gen.makeSelectorChain =
+      [("not selector", "ret = None"),
+       ("isinstance(selector, string_types)", "ret = CompiledSelector(selector) if force_compiled else Selector(selector)"),
+       ("isinstance(selector, Selector)", "if force_compiled:\n    ret = CompiledSelector(selector.expression_str)")] ∧
+    Gen.makeSelectorDefaultIsArgument = true ∧ Gen.selectorEmptyDefault = "True" ∧
+    Gen.selectorKeepsExpressionStr = true ∧ Gen.compiledEmptyIsNone = true ∧ Gen.compiledNoCodeMatchesAll = true ∧
+    Gen.selectorObjectsAlwaysTruthy = true ∧ Gen.compiledObjectsAlwaysTruthy = true ∧
+    Gen.selectorMatchReusesMatcher = true ∧ Gen.selectorMatchCallsMatches = true ∧
+    Gen.compiledMatchCopiesNamespace = true ∧ Gen.matchesRebuildsNamespace = true ∧
+    (∀ row ∈ Gen.readerNormalisesSelector, row.2 = true) ∧
+    Gen.readerNormalisesSelector.map (·.1) = ["stream", "jsonfile", "avro", "csvfile", "sqlite"] ∧
+    Gen.streamAdapterDelegates = true ∧ Gen.streamLoopCatches = ["EOFError"] ∧
+    Gen.sqliteIterNestsTables = true ∧ Gen.sqliteReadTableBatches = true := by decide
 
 /-- With no selector (None, "", or an empty `CompiledSelector`) every reader is the identity filter. -/
 theorem C10_empty_selector {I D P X R E : Type} [DecidableEq I] (dec : Decoders D P X R E)
@@ -181,6 +202,9 @@ example : read genCfg dec none (Src.stream (X := Nat) (frames.eraseIdx 8))
 example : read genCfg dec (some fun r => .ok (r.2 % 2 == 0)) (Src.stream (X := Nat) frames)
     = ⟨[("a", 10), ("b", 12)], some "RecordDescriptorNotFound"⟩ := by decide
 example : read genCfg dec (some odd) (Src.stream (X := Nat) frames) = ⟨[("a", 11)], some "TypeError"⟩ := by decide
+example : read genCfg dec (some odd) (Src.json (D := String) (P := Nat) (X := Nat)
+      [.descriptor 1, .record 1 ("j", 1), .plain (.ok ("p", 2)), .record 1 ("j", 5), .record 2 ("j", 7)])
+    = ⟨[("j", 1), ("j", 5)], some "RecordDescriptorNotFound"⟩ := by decide
 example : read genCfg dec (some odd) (Src.sqlite (I := Nat) (D := String) (P := Nat) [[[1, 2], [3]], [[5, 99, 7]]])
     = ⟨[("sql", 1), ("sql", 3), ("sql", 5)], some "row"⟩ := by decide
 /-- an evaluation that meets the hypotheses of `C10_history_independent` and leaves garbage behind -/
